@@ -750,6 +750,9 @@ func (s *SourceControl) SendAllStatus(dummy *string, reply *bool) error {
 
 // StoreRawDataBlock causes a block of raw data to be stored in a temporary file.
 func (s *SourceControl) StoreRawDataBlock(N int, reply *string) error {
+	if N <= 0 {
+		return fmt.Errorf("StoreRawDataBlock needs a positive number of samples, got %d", N)
+	}
 	file, err := os.CreateTemp("", "dastard_rawdata_*_inprogress.npz")
 	if err != nil {
 		return err
